@@ -87,6 +87,55 @@ def witness(chk):
     pyprog.drop_module(mod)
 
 
+LEAVES_SRC = """
+def step(i, fail):
+    v = i * 10
+    if fail:
+        raise KeyError(i)
+    r = v + 1
+    return r
+
+def batch(n, bad):
+    done = 0
+    for i in range(n):
+        try:
+            step(i, i in bad)
+        except KeyError:
+            pass
+        else:
+            done = done + 1
+    return done
+"""
+
+
+def incomplete_leaves(chk, rng):
+    """a focused selector in total mode: one record per call of the focus's function in which every captured
+    variable was bound — a call that raises before binding one of them gives nothing and takes nothing away from
+    the calls before and after it"""
+    import ptera
+    import pyprog
+    sel = "batch(n) > step(!v, r)"
+    for _ in range(20 if chk.tier == "quick" else 400):
+        mod = pyprog.make_module(LEAVES_SRC, "verif_c07_leaves")
+        n = rng.randrange(2, 6)
+        bad = tuple(sorted(rng.sample(range(n), rng.randrange(0, n))))
+        got = []
+        with ptera.probing(sel, env=mod.__dict__, raw=True, probe_type="total") as prb:
+            prb.subscribe(lambda d: got.append({k: list(c.values) for k, c in d.items()}))
+            mod.batch(n, bad)
+        want = [{"v": [i * 10], "r": [i * 10 + 1], "n": [n]} for i in range(n) if i not in bad]
+        canon = lambda recs: sorted(sorted(r.items()) for r in recs)
+        chk.count(("incomplete-leaves", n, bad), nontrivial=bool(bad) and len(bad) < n)
+        chk.dist("total, focused: %s" % ("no incomplete call" if not bad else "an incomplete call before a complete one"
+                                         if any(b < i for b in bad for i in range(n) if i not in bad) else "incomplete calls last"))
+        if canon(got) != canon(want):
+            chk.violation("oracle", "total selector %s, batch(%d) with the calls %s of step raising before r is bound: records "
+                          "%r, one per complete call would be %r" % (sel, n, list(bad), got[:6], want[:6]),
+                          {"family_src": LEAVES_SRC, "handlers": [{"selector": sel}], "roots": ["batch(%d, %r)" % (n, bad)],
+                           "got": got[:8], "reference": want[:8]})
+        pyprog.drop_module(mod)
+
+
 def run(chk):
     chk.cov["rule"] = (
         "families of 3 mutually calling tooled functions (bind / call / raise slots), random scripts with "
@@ -96,6 +145,7 @@ def run(chk):
     nf, nc = (4, 150) if chk.tier == "quick" else (24, 500)
     c03.run_cases(chk, nf, nc, gen_handlers, oracle)
     witness(chk)
+    incomplete_leaves(chk, chk.rng)
     chk.assumptions += [
         "forced-total focused selectors are compared with the model only (no independent reference)",
     ]
